@@ -106,7 +106,9 @@ pub mod fallback {
     /// Returns the largest integer less than or equal to `x`.
     #[inline]
     pub fn floor(x: f32) -> f32 {
-        (x as i64 - x.is_sign_negative() as i64) as f32
+        // Truncate, then step down if truncation rounded up (towards zero)
+        let t = x as i64 as f32;
+        t - (t > x) as u32 as f32
     }
     // Returns the least non-negative remainder of `x` (mod `m`).
     #[inline]
